@@ -4,10 +4,10 @@
    rows; [Shape] and [mac] are arbitrary (the executable instance is [cshape], [mac_q]: complex rational shapes
    with the exact MAC).  Purity/determinism: [label], [sc_apply], [sc_ssi], [sc_plscf] are Gallina functions of the
    three tables, the column range and the three tolerances. *)
-From Coq Require Import String List Arith ZArith QArith Qabs Bool.
+From Coq Require Import String List Arith ZArith QArith Qabs Bool Lia.
 From PyOMA.Base Require Import Argmin.
-From PyOMA.Model Require Import M_sc.
-From PyOMA.Proofs Require Import P_sc.
+From PyOMA.Model Require Import M_sc M_sc_step.
+From PyOMA.Proofs Require Import P_sc P_sc_step.
 Import ListNotations.
 Open Scope Q_scope.
 
@@ -128,6 +128,129 @@ Theorem C10_mac_q_none : forall x a,
   mac_q x a = None <-> length x <> length a \/ hre x x * hre a a == 0.
 Proof. exact mac_q_none. Qed.
 
+(* ================= the loop of gen.SC_apply for EVERY step, and the six classes (M_sc_step.v) =================
+   [sc_apply_step mac Fn Xi Phi ordmin ordmax step efn exi ephi] executes the loop
+   "for oo in range(ordmin, ordmax+1, step): o = int(oo/step); ... Lab[:, o] = ..." on a zero label table. *)
+
+(* every table, NaN pattern, step, ordmin, ordmax: cell (i, c) is labelled iff a requested order oo = ordmin + j*step
+   <= ordmax is looked up in column c (that order is c*step + ordmin mod step) and the criteria hold against the first
+   nearest-in-frequency pole of column c-1 *)
+Theorem C10_sc_step_spec : forall (Shape:Type) (mac:Shape -> Shape -> option Q) Fn Xi (Phi:list (list (option Shape))) ordmin ordmax step efn exi ephi L i c,
+  sc_apply_step mac Fn Xi Phi ordmin ordmax step efn exi ephi = SsOk L -> (i < nrows Fn)%nat -> (c < ncols Fn)%nat ->
+  (nth c (nth i L []) false = true <->
+   (ordmin <= c * step + ordmin mod step <= ordmax)%nat /\ stable_spec mac Fn Xi Phi efn exi ephi i c).
+Proof. exact sc_step_spec. Qed.
+
+(* the arithmetic condition is "some requested order lands in column c" *)
+Theorem C10_col_requested_iff : forall start stop step c,
+  step <> 0%nat ->
+  ((exists oo j, (oo = start + j * step /\ oo < stop /\ oo / step = c)%nat) <-> (start <= c * step + start mod step < stop)%nat).
+Proof. exact col_requested_iff. Qed.
+
+(* ordmin on the order grid (always so for step = 1): column c stands for order c*step, and it is labelled iff
+   ordmin <= c*step <= ordmax and the criteria hold against the previous order's column c-1 *)
+Theorem C10_sc_step_spec_aligned : forall (Shape:Type) (mac:Shape -> Shape -> option Q) Fn Xi (Phi:list (list (option Shape))) ordmin ordmax step efn exi ephi L i c,
+  sc_apply_step mac Fn Xi Phi ordmin ordmax step efn exi ephi = SsOk L -> (i < nrows Fn)%nat -> (c < ncols Fn)%nat ->
+  Nat.divide step ordmin ->
+  (nth c (nth i L []) false = true <->
+   (ordmin <= c * step <= ordmax)%nat /\ stable_spec mac Fn Xi Phi efn exi ephi i c).
+Proof. exact sc_step_spec_aligned. Qed.
+
+(* off the grid the order reading fails in both directions (replayed on gen.SC_apply by the harness: model = code) *)
+Theorem C10_sc_step_order_reading_refuted :
+  (exists L, sc_apply_step mac_q rf_Fn rf_Xi rf_Phi 3 3 2 (1#64) (1#16) (1#32) = SsOk L /\
+             nth 1 (nth 0 L []) false = true /\ ~ (3 <= 1 * 2 <= 3)%nat) /\
+  (exists L, sc_apply_step mac_q rf_Fn rf_Xi rf_Phi 1 2 2 (1#64) (1#16) (1#32) = SsOk L /\
+             nth 1 (nth 0 L []) false = false /\ (1 <= 1 * 2 <= 2)%nat /\
+             stable_spec mac_q rf_Fn rf_Xi rf_Phi (1#64) (1#16) (1#32) 0 1).
+Proof. exact sc_step_order_reading_refuted. Qed.
+
+Theorem C10_sc_step_never_stable : forall (Shape:Type) (mac:Shape -> Shape -> option Q) Fn Xi (Phi:list (list (option Shape))) ordmin ordmax step efn exi ephi L i c,
+  sc_apply_step mac Fn Xi Phi ordmin ordmax step efn exi ephi = SsOk L -> (i < nrows Fn)%nat -> (c < ncols Fn)%nat ->
+  c = 0%nat \/ (getQ Fn i c = None \/ getQ Xi i c = None \/ getS Phi i c = None) \/
+  (forall k, (k < List.length Fn)%nat -> getQ Fn k (pred c) = None) \/
+  ~ (ordmin <= c * step + ordmin mod step <= ordmax)%nat ->
+  nth c (nth i L []) false = false.
+Proof. exact sc_step_never_stable. Qed.
+
+Theorem C10_sc_step_dims : forall (Shape:Type) (mac:Shape -> Shape -> option Q) Fn Xi (Phi:list (list (option Shape))) ordmin ordmax step efn exi ephi L,
+  sc_apply_step mac Fn Xi Phi ordmin ordmax step efn exi ephi = SsOk L ->
+  List.length L = nrows Fn /\ forall i, (i < nrows Fn)%nat -> List.length (nth i L []) = ncols Fn.
+Proof. intros Shape mac Fn Xi Phi ordmin ordmax step. exact (sc_range_dims Shape mac Fn Xi Phi ordmin (S ordmax) step). Qed.
+
+Theorem C10_sc_step_value_error_iff : forall (Shape:Type) (mac:Shape -> Shape -> option Q) Fn Xi (Phi:list (list (option Shape))) ordmin ordmax step efn exi ephi,
+  sc_apply_step mac Fn Xi Phi ordmin ordmax step efn exi ephi = SsValueErr <-> step = 0%nat.
+Proof. intros Shape mac Fn Xi Phi ordmin ordmax step. exact (sc_range_value_error_iff Shape mac Fn Xi Phi ordmin (S ordmax) step). Qed.
+
+Theorem C10_sc_step_index_error_iff : forall (Shape:Type) (mac:Shape -> Shape -> option Q) Fn Xi (Phi:list (list (option Shape))) ordmin ordmax step efn exi ephi,
+  sc_apply_step mac Fn Xi Phi ordmin ordmax step efn exi ephi = SsIndexErr <->
+  step <> 0%nat /\ exists c, (ordmin <= c * step + ordmin mod step < S ordmax)%nat /\ (ncols Fn <= c)%nat.
+Proof. intros Shape mac Fn Xi Phi ordmin ordmax step. exact (sc_range_index_error_iff Shape mac Fn Xi Phi ordmin (S ordmax) step). Qed.
+
+(* the loop writes no column twice (so "unchanged on a caught exception" is 0) *)
+Theorem C10_sc_step_visits_once : forall start stop step, step <> 0%nat -> NoDup (visited start stop step).
+Proof. exact visited_nodup. Qed.
+
+(* step = 1: the loop is the interval model of the theorems above, cell by cell and error by error *)
+Theorem C10_sc_step1_entry : forall (Shape:Type) (mac:Shape -> Shape -> option Q) Fn Xi (Phi:list (list (option Shape))) c0 c1 efn exi ephi L i c,
+  sc_apply_step mac Fn Xi Phi c0 c1 1 efn exi ephi = SsOk L -> (i < nrows Fn)%nat -> (c < ncols Fn)%nat ->
+  nth c (nth i L []) false = label mac Fn Xi Phi c0 c1 efn exi ephi i c.
+Proof. exact sc_step1_entry. Qed.
+Theorem C10_sc_step1_error_agrees : forall (Shape:Type) (mac:Shape -> Shape -> option Q) Fn Xi (Phi:list (list (option Shape))) c0 c1 efn exi ephi,
+  sc_apply_step mac Fn Xi Phi c0 c1 1 efn exi ephi = SsIndexErr <-> sc_apply mac Fn Xi Phi c0 c1 efn exi ephi = ScIndexErr.
+Proof. exact sc_step1_error_agrees. Qed.
+
+(* result.Lab of SSIdat / SSIcov / SSIdat_MS / SSIcov_MS / pLSCF / pLSCF_MS from their run parameters
+   (class_lab = the loop on the arguments [class_args] builds: tolerances read from sc by key; SSI passes
+   ordmin, ordmax, step; pLSCF passes max(ordmin-1,0), ordmax-1, 1) *)
+Theorem C10_class_lab_spec : forall (Shape:Type) (mac:Shape -> Shape -> option Q) c p Fn Xi (Phi:list (list (option Shape))) L i col,
+  class_lab mac c p Fn Xi Phi = SsOk L -> (i < nrows Fn)%nat -> (col < ncols Fn)%nat ->
+  exists efn exi ephi,
+    lookup "err_fn" (rp_sc p) = Some efn /\ lookup "err_xi" (rp_sc p) = Some exi /\ lookup "err_phi" (rp_sc p) = Some ephi /\
+    (nth col (nth i L []) false = true <->
+     (if is_plscf c then (rp_ordmin p <= class_order c p col <= rp_ordmax p)%nat
+      else (rp_ordmin p <= class_order c p col + rp_ordmin p mod rp_step p <= rp_ordmax p)%nat) /\
+     stable_spec mac Fn Xi Phi efn exi ephi i col).
+Proof. exact class_lab_spec. Qed.
+
+(* the property's reading, all six classes: the pole in column col is labelled iff the ORDER that column stands for
+   (col+1 for pLSCF, col*step for SSI) lies in [ordmin, ordmax] and the criteria hold against column col-1 *)
+Theorem C10_class_lab_spec_orders : forall (Shape:Type) (mac:Shape -> Shape -> option Q) c p Fn Xi (Phi:list (list (option Shape))) L i col,
+  class_lab mac c p Fn Xi Phi = SsOk L -> (i < nrows Fn)%nat -> (col < ncols Fn)%nat ->
+  is_plscf c = true \/ Nat.divide (rp_step p) (rp_ordmin p) ->
+  exists efn exi ephi,
+    lookup "err_fn" (rp_sc p) = Some efn /\ lookup "err_xi" (rp_sc p) = Some exi /\ lookup "err_phi" (rp_sc p) = Some ephi /\
+    (nth col (nth i L []) false = true <->
+     (rp_ordmin p <= class_order c p col <= rp_ordmax p)%nat /\ stable_spec mac Fn Xi Phi efn exi ephi i col).
+Proof. exact class_lab_spec_orders. Qed.
+
+(* on tables of the width the class builds (ordmax/step + 1 columns for SSI, ordmax for pLSCF) the call stays inside the table *)
+Theorem C10_class_lab_total : forall (Shape:Type) (mac:Shape -> Shape -> option Q) c p Fn Xi (Phi:list (list (option Shape))) efn exi ephi,
+  lookup "err_fn" (rp_sc p) = Some efn -> lookup "err_xi" (rp_sc p) = Some exi -> lookup "err_phi" (rp_sc p) = Some ephi ->
+  ncols Fn = class_ncols c p -> is_plscf c = true \/ rp_step p <> 0%nat ->
+  exists L, class_lab mac c p Fn Xi Phi = SsOk L.
+Proof. exact class_lab_total. Qed.
+
+Theorem C10_class_lab_key_error_iff : forall (Shape:Type) (mac:Shape -> Shape -> option Q) c p Fn Xi (Phi:list (list (option Shape))),
+  (exists k, class_lab mac c p Fn Xi Phi = SsKeyErr k) <->
+  lookup "err_fn" (rp_sc p) = None \/ lookup "err_xi" (rp_sc p) = None \/ lookup "err_phi" (rp_sc p) = None.
+Proof. exact class_lab_key_error_iff. Qed.
+
+(* purity: the labels are a function of the tables, ordmin, ordmax, step and the three tolerances read by key *)
+Theorem C10_class_lab_pure : forall (Shape:Type) (mac:Shape -> Shape -> option Q) c p p' Fn Xi (Phi:list (list (option Shape))),
+  rp_ordmin p = rp_ordmin p' -> rp_ordmax p = rp_ordmax p' -> rp_step p = rp_step p' ->
+  lookup "err_fn" (rp_sc p) = lookup "err_fn" (rp_sc p') -> lookup "err_xi" (rp_sc p) = lookup "err_xi" (rp_sc p') ->
+  lookup "err_phi" (rp_sc p) = lookup "err_phi" (rp_sc p') ->
+  class_lab mac c p Fn Xi Phi = class_lab mac c p' Fn Xi Phi.
+Proof. exact class_lab_pure. Qed.
+
+(* ... and not of the order in which the items of sc were inserted *)
+Theorem C10_class_lab_key_order : forall (Shape:Type) (mac:Shape -> Shape -> option Q) c p sc' Fn Xi (Phi:list (list (option Shape))),
+  NoDup (map fst (rp_sc p)) -> Permutation.Permutation (rp_sc p) sc' ->
+  class_lab mac c {| rp_ordmin := rp_ordmin p; rp_ordmax := rp_ordmax p; rp_step := rp_step p; rp_sc := sc' |} Fn Xi Phi =
+  class_lab mac c p Fn Xi Phi.
+Proof. exact class_lab_key_order. Qed.
+
 Print Assumptions C10_sc_label_spec.
 Print Assumptions C10_sc_label_spec_text.
 Print Assumptions C10_sc_match_is_closest.
@@ -145,6 +268,23 @@ Print Assumptions C10_sc_plscf_index_error_iff.
 Print Assumptions C10_cell_verdict_sound.
 Print Assumptions C10_mac_q_some.
 Print Assumptions C10_mac_q_none.
+Print Assumptions C10_sc_step_spec.
+Print Assumptions C10_col_requested_iff.
+Print Assumptions C10_sc_step_spec_aligned.
+Print Assumptions C10_sc_step_order_reading_refuted.
+Print Assumptions C10_sc_step_never_stable.
+Print Assumptions C10_sc_step_dims.
+Print Assumptions C10_sc_step_value_error_iff.
+Print Assumptions C10_sc_step_index_error_iff.
+Print Assumptions C10_sc_step_visits_once.
+Print Assumptions C10_sc_step1_entry.
+Print Assumptions C10_sc_step1_error_agrees.
+Print Assumptions C10_class_lab_spec.
+Print Assumptions C10_class_lab_spec_orders.
+Print Assumptions C10_class_lab_total.
+Print Assumptions C10_class_lab_key_error_iff.
+Print Assumptions C10_class_lab_pure.
+Print Assumptions C10_class_lab_key_order.
 
 (* non-vacuity.  2 poles x 3 columns, 2 complex channels.  Column 1 holds one pole (2 Hz, 1/32); column 2 holds a far
    pole (5 Hz) in row 0 and in row 1 a pole 1/64 Hz away, damping 1/1024 away, shape multiplied by i (MAC = 1). *)
@@ -173,3 +313,38 @@ Example C10_example_signed_division :
   label mac_q [[None; Some 2; Some 2]] [[None; Some (1#32); Some (-(1#32))]]
         (norm_phi [[[None]; [Some (1,0)]; [Some (1,0)]]]) 0 2 (1#64) (1#16) (1#32) 0 2 = true.
 Proof. vm_compute. reflexivity. Qed.
+
+(* ---- step 2: a 2 x 4 table whose columns stand for orders 0, 2, 4, 6 (SSI axis with step 2) ---- *)
+Definition st_Fn : list (list (option Q)) := [[None; Some 2; Some (129#64); Some 5]; [None; None; Some 7; Some (131#64)]].
+Definition st_Xi : list (list (option Q)) := [[None; Some (1#32); Some (33#1024); Some (1#16)]; [None; None; Some (1#32); Some (1#32)]].
+Definition st_Phi : list (list (list (option (Q*Q)))) :=
+  [[[None; None]; [Some (1, 0); Some (1#2, 1#4)]; [Some (0, 1); Some (-(1#4), 1#2)]; [Some (1, 0); Some (-(1), 1#2)]];
+   [[None; None]; [None; None];                  [Some (1, 0); Some (-(1), 1#2)];   [Some (2, 0); Some (1, 1#2)]]].
+Definition st_sc : list (string * Q) := [("err_phi"%string, 1#32); ("err_fn"%string, 1#32); ("err_xi"%string, 1#16)].
+(* all orders; ordmin = 4 (on the grid: order 2 is not asked for, but its poles were never stable);
+   ordmin = 6: only order 6; ordmin = 3 (off the grid): columns 1, 2 are visited, order 6 is not;
+   ordmax = 8: beyond the table *)
+Example C10_example_step :
+  show_ss (sc_apply_step mac_q st_Fn st_Xi (norm_phi st_Phi) 0 6 2 (1#32) (1#16) (1#32)) = "0010;0001"%string /\
+  show_ss (sc_apply_step mac_q st_Fn st_Xi (norm_phi st_Phi) 6 6 2 (1#32) (1#16) (1#32)) = "0000;0001"%string /\
+  show_ss (sc_apply_step mac_q st_Fn st_Xi (norm_phi st_Phi) 3 6 2 (1#32) (1#16) (1#32)) = "0010;0000"%string /\
+  show_ss (sc_apply_step mac_q st_Fn st_Xi (norm_phi st_Phi) 0 8 2 (1#32) (1#16) (1#32)) = "IndexError"%string /\
+  show_ss (sc_apply_step mac_q st_Fn st_Xi (norm_phi st_Phi) 0 6 0 (1#32) (1#16) (1#32)) = "ValueError"%string.
+Proof. vm_compute. repeat split; reflexivity. Qed.
+(* the hypotheses of C10_sc_step_spec_aligned and the right-hand side of its equivalence hold at (row 1, column 3 = order 6) *)
+Example C10_example_step_spec :
+  Nat.divide 2 4 /\ (4 <= 3 * 2 <= 6)%nat /\ stable_spec mac_q st_Fn st_Xi (norm_phi st_Phi) (1#32) (1#16) (1#32) 1 3.
+Proof. split; [exists 2%nat; reflexivity|]. split; [lia|]. apply stable_at_iff. vm_compute. reflexivity. Qed.
+(* class level: SSIcov with ordmin 4, ordmax 6, step 2 passes (4, 6, 2) - printed as start stop step = 4 7 2 -;
+   pLSCF_MS with ordmin 3, ordmax 4 on the same table read as orders 1..4 passes (2, 3, 1); sc is read by key *)
+Example C10_example_class :
+  run_cls 1 4 6 2 st_sc st_Fn st_Xi st_Phi = "4 7 2 1/32 1/16 1/32|0010;0001|FFTF;FFFT"%string /\
+  run_cls 5 3 4 9 st_sc st_Fn st_Xi st_Phi = "2 4 1 1/32 1/16 1/32|0010;0001|FFTF;FFFT"%string /\
+  run_cls 5 3 4 9 (tl st_sc) st_Fn st_Xi st_Phi = "KeyError err_phi|KeyError err_phi|"%string /\
+  ncols st_Fn = class_ncols SSIcov {| rp_ordmin := 4; rp_ordmax := 6; rp_step := 2; rp_sc := st_sc |} /\
+  NoDup (map fst st_sc).
+Proof.
+  split; [vm_compute; reflexivity|]. split; [vm_compute; reflexivity|]. split; [vm_compute; reflexivity|].
+  split; [vm_compute; reflexivity|].
+  repeat constructor; cbn; intros H; repeat (destruct H as [H|H]; [discriminate|]); exact H.
+Qed.
